@@ -19,10 +19,11 @@ from . import rulelang
 
 
 class ARule:
-    __slots__ = ("pattern", "children", "glob", "cant_delete")
+    __slots__ = ("pattern", "children", "glob", "cant_delete", "prio")
 
-    def __init__(self, pattern, children=(), glob=False, cant_delete=None):
+    def __init__(self, pattern, children=(), glob=False, cant_delete=None, prio=None):
         self.pattern, self.children, self.glob, self.cant_delete = pattern, list(children), glob, cant_delete
+        self.prio = prio            # %prio=N: among the rules matching a row the one with the highest prio governs (default 0)
 
     def line(self):
         s = self.pattern
@@ -30,14 +31,19 @@ class ARule:
             s += " %global"
         if self.cant_delete is not None:
             s += " %%cant_delete=%d" % (1 if self.cant_delete else 0)
+        if self.prio is not None:
+            s += " %%prio=%d" % self.prio
         return s
 
     def to_json(self):
-        return {"p": self.pattern, "g": self.glob, "cd": self.cant_delete, "c": [c.to_json() for c in self.children]}
+        d = {"p": self.pattern, "g": self.glob, "cd": self.cant_delete, "c": [c.to_json() for c in self.children]}
+        if self.prio is not None:
+            d["pr"] = self.prio
+        return d
 
     @staticmethod
     def from_json(d):
-        return ARule(d["p"], [ARule.from_json(c) for c in d.get("c", [])], d.get("g", False), d.get("cd"))
+        return ARule(d["p"], [ARule.from_json(c) for c in d.get("c", [])], d.get("g", False), d.get("cd"), d.get("pr"))
 
 
 def text(rules, indent=0):
@@ -51,11 +57,12 @@ def text(rules, indent=0):
 
 class MRule:
     """rule of a merged ACL: same row text from several generators is one rule"""
-    __slots__ = ("pattern", "children", "glob", "cds", "gens", "_kids")
+    __slots__ = ("pattern", "children", "glob", "cds", "gens", "_kids", "prio")
 
     def __init__(self, pattern):
         self.pattern = pattern
         self.children = []
+        self.prio = 0           # the highest %prio any generator wrote on this row
         self.glob = False
         self.cds = []
         self.gens = []
@@ -73,6 +80,7 @@ def merge(named_acls):
                     m._kids = []
                     out.append(m)
                 m.glob = m.glob or r.glob
+                m.prio = max(m.prio, r.prio or 0)
                 m.cds.append(r.cant_delete if r.cant_delete is not None else r.pattern.startswith("interface"))
                 m.gens.append(gen)
                 if r.children:
@@ -108,6 +116,7 @@ def _dedupe(rules):
             continue
         u = MRule(r.pattern)
         u.glob = m.glob or r.glob
+        u.prio = max(m.prio, r.prio)
         u.cds = list(m.cds) + list(r.cds)
         u.gens = list(m.gens) + list(r.gens)
         u.children = list(m.children) + list(r.children)
@@ -138,13 +147,17 @@ def govern(level: Level, row: str, prefix: str):
     cands = matches(level, row, prefix)
     if not cands:
         return None
-    specific = [c for c in cands if not is_catch_all(c[0])]
+    # %prio first: only the matching rules of the highest prio compete for governing the row (the children of every
+    # matching local rule still apply below, see the loop over cands further down)
+    top_prio = max(c[0].prio for c in cands)
+    ranked = [c for c in cands if c[0].prio == top_prio]
+    specific = [c for c in ranked if not is_catch_all(c[0])]
     if specific:
         best = specific[0]
     else:
         negated = row.startswith(prefix + " ")
-        rev = [c for c in cands if c[2]]
-        best = rev[0] if (negated and rev) else cands[0]
+        rev = [c for c in ranked if c[2]]
+        best = rev[0] if (negated and rev) else ranked[0]
     rule, is_local, is_rev = best
     cl, cg = [], []
     if is_local and not is_rev:
